@@ -617,6 +617,37 @@ func runShared(t *testing.T, c sharedCase) (viol string) {
 					}
 				}
 			}
+			// the same vertical ray - through the coming sample's centre - is asked by a member of each
+			// session before and after the sample; each answer (hit or miss) must be the one a local
+			// grid fed with the same samples gives: every member sees every other member's samples
+			rayAt := func(stage string) bool {
+				pr := &dagazpb.Ray{From: &dagazpb.Point{X: q.C[0], Y: q.C[1] + 1, Z: q.C[2]}, To: &dagazpb.Point{X: q.C[0], Y: q.C[1] - 1, Z: q.C[2]}}
+				for k := range members {
+					if len(members[k]) == 0 {
+						continue
+					}
+					observer := members[k][len(members[k])-1]
+					req++
+					n0 := len(w.Inbox(observer))
+					w.Send(observer, &dagazpb.DagazGetGroundPlaneRequest{Type: TGroundReq, Timestamp: ts, RequestId: req, Ray: pr})
+					got, answered := false, false
+					for _, rx := range w.Inbox(observer)[n0:] {
+						if m, ok := rx.M.(*dagazpb.DagazGetGroundPlaneResponse); ok {
+							answered = true
+							got = m.Ground != nil && m.Ground.Extents != nil && (m.Ground.Extents.X != 0 || m.Ground.Extents.Z != 0)
+						}
+					}
+					hit, _ := ref[k].IntersectQuad(dagaz.NewRayFromProtobuf(pr))
+					if answered && got != (hit != nil) {
+						viol = fmt.Sprintf("%s: connection %d (session %d) asks for the ground under (%v,%v) and gets hit=%v, a grid fed with the samples sent to that session so far gives hit=%v", stage, observer, k+1, q.C[0], q.C[2], got, hit != nil)
+						return false
+					}
+				}
+				return true
+			}
+			if !rayAt(fmt.Sprintf("before sample %d", i+1)) {
+				return
+			}
 			samples := []*dagazpb.Quad{q.proto()}
 			if (i+who)%3 == 0 {
 				// a sample the server must ignore (far outside the supported range) travels in the same
@@ -627,6 +658,9 @@ func runShared(t *testing.T, c sharedCase) (viol string) {
 			ref[samplerSess].InsertQuad(dagaz.NewQuadFromProtobuf(q.proto()))
 			if len(w.Panics()) > 0 {
 				viol = "server code panicked: " + w.Panics()[0]
+				return
+			}
+			if !rayAt(fmt.Sprintf("after sample %d (sent by connection %d in session %d)", i+1, sampler, samplerSess+1)) {
 				return
 			}
 			if !check(fmt.Sprintf("after sample %d (sent by connection %d in session %d)", i+1, sampler, samplerSess+1)) {
